@@ -130,7 +130,7 @@ def rnd_mag(rng):
         return float(rng.choice([1, -1, 2, 0.5, -0.5]))     # values a special case might key on
     if r < 0.75:
         return rng.uniform(-10, 10)
-    return rng.choice([-1, 1]) * 10 ** rng.uniform(-6, 6)
+    return rng.choice([-1, 1]) * 10 ** rng.uniform(-12, 12)
 
 
 def gen_float_transform(rng, tame=False):
@@ -163,28 +163,38 @@ def gen_float_transform(rng, tame=False):
     if k == 'matrix':
         return [k, [val() for _ in range(16)]]
     while True:
-        eye = [rng.uniform(-10, 10) for _ in range(3)]
-        interest = [rng.uniform(-10, 10) for _ in range(3)]
-        up = [rng.uniform(-1, 1) for _ in range(3)]
-        r = rng.random()
-        if r < 0.08:
-            eye = [0.0, 0.0, 0.0]
-        elif r < 0.16:
-            interest = [0.0, 0.0, 0.0]
-        elif r < 0.24:
-            up = [0.0, 0.0, 0.0]
-            up[rng.randrange(3)] = rng.choice([1.0, -1.0])       # an axis as up vector
-        elif r < 0.30:
-            up = [10 * x for x in up]                             # up need not be a unit vector
-        d = [a - b for a, b in zip(eye, interest)]
-        nd = math.sqrt(sum(x * x for x in d))
-        nu = math.sqrt(sum(x * x for x in up))
-        if nd < 0.5 or nu < 0.3:
+        # every scale: the distance between eye and interest and the length of up range over twenty decades
+        # (eye stays within a few such distances of the origin, so the difference survives single precision)
+        dist = 10 ** rng.uniform(-10, 8) if rng.random() < (0.25 if tame else 0.5) else rng.uniform(0.5, 20)
+        ulen = 10 ** rng.uniform(-10, 8) if (not tame and rng.random() < 0.5) else rng.uniform(0.3, 2)
+        dirv = [rng.gauss(0, 1) for _ in range(3)]
+        nd = math.sqrt(sum(x * x for x in dirv))
+        upv = [rng.gauss(0, 1) for _ in range(3)]
+        nu = math.sqrt(sum(x * x for x in upv))
+        if nd < 1e-3 or nu < 1e-3:
             continue
-        f = [x / nd for x in d]
-        cr = [f[1] * up[2] - f[2] * up[1], f[2] * up[0] - f[0] * up[2], f[0] * up[1] - f[1] * up[0]]
+        f = [x / nd for x in dirv]
+        u = [x / nu for x in upv]
+        cr = [f[1] * u[2] - f[2] * u[1], f[2] * u[0] - f[0] * u[2], f[0] * u[1] - f[1] * u[0]]
         if math.sqrt(sum(x * x for x in cr)) < 0.2:
             continue          # up (nearly) parallel to the viewing direction: degenerate
+        r = rng.random()
+        if r < 0.1:
+            eye = [0.0, 0.0, 0.0]
+        else:
+            eye = [rng.uniform(-3, 3) * dist for _ in range(3)]
+        interest = [e - dist * x for e, x in zip(eye, f)]
+        if r > 0.9:
+            # interest at the origin
+            eye = [dist * x for x in f]
+            interest = [0.0, 0.0, 0.0]
+        up = [ulen * x for x in u]
+        if 0.1 <= r < 0.2:
+            ax = [0.0, 0.0, 0.0]
+            ax[rng.randrange(3)] = rng.choice([1.0, -1.0])       # an axis as up vector
+            cr = [f[1] * ax[2] - f[2] * ax[1], f[2] * ax[0] - f[0] * ax[2], f[0] * ax[1] - f[1] * ax[0]]
+            if math.sqrt(sum(x * x for x in cr)) >= 0.2:
+                up = ax
         return [k, eye, interest, up]
 
 
@@ -390,7 +400,8 @@ def run(ctx):
                 'constructed or loaded from generated XML, every transform matrix after an edit history, node.matrix after '
                 'save(), node.matrix after write + reload.  Float cases (random unit axes, angles in +-720 degrees, magnitudes '
                 '1e-6..1e6, non-degenerate eye/interest/up, sequences up to 5 plus edits) go to the direct oracle with a '
-                'float64 reference.  non-trivial = at least two transforms/edits, or a single rotate/lookat/matrix; '
+                'float64 reference; lookat eye-interest distances and up lengths over 1e-10..1e8, translate/scale/matrix '
+                'magnitudes over 1e-12..1e12.  non-trivial = at least two transforms/edits, or a single rotate/lookat/matrix; '
                 'distinct = different (mode, transforms, edits)',
         'samples': [{'mode': c['mode'], 'init': c['init'], 'edits': c['edits'], 'observed': r['obs']}
                     for c, r in ex_cases[len(corpus_cases()):len(corpus_cases()) + 3]],
@@ -417,7 +428,7 @@ def run(ctx):
             'float32 implementation is compared at tolerance (1e-5 relative to the product of Frobenius norms) by the '
             'direct oracle and exactly on integer data by the correspondence',
         ],
-        assumptions=['angles within +-720 degrees and magnitudes within 1e-6..1e6 in the float oracle (float32 storage)',
+        assumptions=['angles within +-720 degrees and magnitudes within 1e-12..1e12 in the float oracle (float32 storage)',
                      'lookat triples are non-degenerate (eye <> interest, up not parallel to the view direction)'])
 
 
